@@ -238,3 +238,25 @@ pub fn gen_runs(rng: &mut Rng, ts: usize, n: usize, style: u64) -> Vec<u64> {
 pub fn nlist(xs: &[u64]) -> String {
     coq::nlist(xs.iter())
 }
+
+/// Byte budget of a correspondence stream (the coqc side costs roughly in proportion to the text).
+pub struct Budget {
+    pub left: i64,
+    pub skipped: u64,
+}
+impl Budget {
+    pub fn new(args: &hxlib::util::Args, quick_kb: i64) -> Self {
+        Budget { left: if args.thorough() { quick_kb * 12 * 1024 } else { quick_kb * 1024 }, skipped: 0 }
+    }
+    /// push the case if it fits the remaining budget
+    pub fn push(&mut self, s: &mut hxlib::util::Stream, input: String, output: String, human: Value) -> bool {
+        let sz = (input.len() + output.len()) as i64;
+        if sz > self.left {
+            self.skipped += 1;
+            return false;
+        }
+        self.left -= sz;
+        s.push(input, output, human);
+        true
+    }
+}
